@@ -40,7 +40,16 @@ OptsQ == {<<"", RefIdx("A")>>, <<"", RefIdx("B")>>, <<"B", RefIdx("A")>>,
           <<"", Pr(Bn("in", Own("x"), Rng("[", NumA("0"), Idx(Own("xs"), Fld(VarR("@A"), "i")), "]")))>>,
           <<"", Pr(Qn("forall", "k", Own("xs"), Bn(">", Idx(Own("ys"), Fld(VarR("@A"), "i")), K)))>>,
           <<"", QBody("A")>>, <<"", QDom("A")>>, <<"B", QBody("A")>>, <<"", QUnused>>, <<"", QOwnDom>>, <<"", QOwnDomRange>>, <<"", QOwnDomSet>>, <<"", QOwnDomDeep>>, <<"", QNested>>, <<"", QNestedAfterUse>>, <<"", QNestedDeep>>, <<"", QUnusedAfter>>,
-          <<"", QNestedOK>>, <<"A", RefP("A")>>, <<"A", QBody("A")>>}
+          <<"", QNestedOK>>, <<"A", RefP("A")>>, <<"A", QBody("A")>>,
+          \* references in an index that sits BELOW a field access: the chain hangs from an alias / a quantified variable / an own field
+          <<"", Pr(Bn(">", Fld(Idx(Fld(VarR("@A"), "xs"), Fld(VarR("@B"), "i")), "f"), NumA("0")))>>,
+          <<"", Pr(Bn(">", Fld(Idx(Fld(VarR("@B"), "xs"), Fld(VarR("@A"), "i")), "f"), NumA("0")))>>,
+          <<"", Pr(Qn("forall", "k", Own("ys"), Qn("forall", "j", Rng("[", NumA("0"), NumA("3"), "]"), Bn(">", Fld(Idx(Fld(K, "xs"), J), "f"), NumA("0")))))>>,
+          <<"", Pr(Qn("forall", "k", Rng("[", NumA("0"), NumA("3"), "]"), Bn(">", Fld(Idx(Own("ps"), K), "x"), NumA("0"))))>>,
+          <<"", Pr(Qn("exists", "k", Own("ys"), Bn(">", Fld(Idx(Fld(K, "xs"), Fld(VarR("@A"), "i")), "f"), NumA("0"))))>>,
+          <<"", Pr(Bn(">", Fld(Fld(Idx(Own("ps"), Fld(VarR("@A"), "i")), "x"), "y"), NumA("0")))>>,
+          \* sibling quantifiers re-using a name inside the condition of an outer quantifier (neither is in the scope of the other)
+          <<"", Pr(Qn("forall", "k", Own("xs"), Bn("and", Qn("exists", "j", Own("ys"), Bn(">", J, K)), Qn("exists", "j", Own("zs"), Bn("<", J, Fld(VarR("@A"), "x"))))))>>}
 
 Scope(t, p, q) == IF t = "globally" THEN [k |-> "scope", t |-> t]
                   ELSE IF t = "after" THEN [k |-> "scope", t |-> t, p |-> p]
@@ -157,7 +166,15 @@ MonSameTopic ==
             Pat2("requires", Dj(<<Ev("x1", "", VEq(NumA("1"))), Ev("q", "", VEq(NumA("0")))>>), Ev("y", "", NoPred)),
             Pat2("causes", Dj(<<Ev("q", "", VEq(NumA("0"))), Ev("x2", "", NoPred)>>), Ev("y", "", NoPred))},
      tm \in MonTimes}
-MonShapes == {Prop(s, WithTime(p, tm)) : s \in MonScopes, p \in MonPatterns, tm \in MonTimes} \cup MonSameTopic
+\* a time bound of ZERO (the bound is a value like any other: 0 s is not "no bound")
+MonZeroTime ==
+  {Prop(s, WithTime(p, [k |-> "time", num |-> "0", unit |-> "s"])) :
+     s \in {Scope("globally", NoPred, NoPred), Scope("after", Ev("p", "P", VEq(NumA("1"))), NoPred)},
+     p \in {Pat1("no", X12("", NoPred, "", VEq(NumA("1")))), Pat1("some", X12("", NoPred, "", VEq(NumA("1")))),
+            Pat2("causes", X12("", NoPred, "", VEq(NumA("1"))), Ev("y", "", NoPred)),
+            Pat2("forbids", Ev("y", "", NoPred), X12("", NoPred, "", VEq(NumA("1")))),
+            Pat2("requires", X12("", NoPred, "", VEq(NumA("1"))), Ev("y", "", NoPred))}}
+MonShapes == {Prop(s, WithTime(p, tm)) : s \in MonScopes, p \in MonPatterns, tm \in MonTimes} \cup MonSameTopic \cup MonZeroTime
 
 \* references against message schemas (C04 / C17): a reference R in every position of a predicate
 SRefs == { Own("n"), Own("k"), Own("s"), Own("b"), Own("K"), Own("nope"),
@@ -284,6 +301,13 @@ WPreds ==
         Qn("exists", "j", Fld(VarR("@A"), "ms"), Bn("=", Fld(VarR("@j"), "t"), Own("s"))),
         Qn("forall", "j", SetOf(<<StrA("$s"), Own("s")>>), Bn("!=", VarR("@j"), Fld(Own("m"), "t"))),
         Qn("forall", "j", Own("xs"), Qn("exists", "i", Fld(VarR("@A"), "xs"), Bn("<", VarR("@i"), VarR("@j")))),
+        \* sibling quantifiers re-using a name INSIDE the condition of an outer quantifier (neither is in the scope of the other)
+        Qn("forall", "i", Rng("[", NumA("0"), NumA("2"), "]"), Bn("and", Qn("exists", "j", Own("xs"), Bn(">", VarR("@j"), VarR("@i"))),
+                                                                         Qn("exists", "j", Own("fx"), Bn("<", VarR("@j"), VarR("@i"))))),
+        Qn("forall", "i", Own("ra"), Bn("or", Qn("exists", "j", Fld(VarR("@i"), "items"), Bn(">", Fld(VarR("@j"), "n"), NumA("0"))),
+                                              Qn("forall", "j", Own("os"), Bn("=", Fld(VarR("@j"), "n"), StrA("$s"))))),
+        Qn("exists", "i", Own("xs"), Qn("forall", "j", Fld(VarR("@A"), "xs"),
+              Bn("implies", Qn("forall", "h", Own("xs"), Bn(">", VarR("@h"), VarR("@j"))), Un("not", Qn("exists", "h", Own("fx"), Bn("<", VarR("@h"), VarR("@i"))))))),
         Bn(">", Call("len", Own("xs")), NumA("0")), Bn("=", Call("len", Own("fx")), NumA("3")),
         Bn("<", Call("sum", Own("xs")), Call("prod", Fld(VarR("@A"), "xs"))), Bn("=", Call("str", Own("n")), Own("s")),
         Bn("=", Call("int", Own("s")), Own("k")), Bn("and", Call("bool", Own("n")), Own("b")) }
